@@ -350,8 +350,58 @@ def run_xyz(case):
     return ck.results()
 
 
+@st.composite
+def batch_case(draw):
+    n = draw(st.sampled_from([1, 2, 3, 3, 3, 4, 5, 7]))
+    return {"points": [draw(point) for _ in range(n)], "other": draw(point), "dtype": draw(st.sampled_from(["f8", "f8", "f4", "list"]))}
+
+
+def run_batch(case):
+    """several positions in one container (any number, in particular 2, 3 and 4: the sizes that
+    can be confused with the vector components): every row is converted as it would be alone"""
+    from yaw.coordinates import AngularCoordinates
+
+    m = mp()
+    in_pts, pts = as_input(case["points"], case.get("dtype", "f8"))
+    n = len(pts)
+    ck = Checker(n in (2, 3, 4) or any(near_special(*p) for p in pts), classes=[f"points:{n}"])
+    c = AngularCoordinates(in_pts)
+    ok, xyz = ck.call(c.to_3d, "to_3d")
+    if not ok:
+        return ck.results()
+    ck.expect(xyz.shape == (n, 3), "batch:to_3d:shape", str(xyz.shape))
+    refs = [ref_xyz(m, float(p[0]), float(p[1])) for p in pts]
+    if xyz.shape == (n, 3):
+        err = max(abs(m.mpf(float(xyz[i, k])) - refs[i][k]) for i in range(n) for k in range(3))
+        ck.expect(err <= BOUND_TO3D, "batch:to_3d:inaccurate", f"err={float(err):.3e}")
+    ok, back = ck.call(lambda: AngularCoordinates.from_3d(xyz), "from_3d")
+    if ok:
+        ck.expect(len(back) == n, "batch:from_3d:length", f"{len(back)} for {n} vectors")
+        if len(back) == n:
+            worst = max(float(ref_sep(m, refs[i], ref_xyz(m, float(back.ra[i]), float(back.dec[i])))) for i in range(n))
+            ck.expect(worst <= 4e-8, "batch:from_3d:roundtrip-distance", f"{worst:.3e} for {n} points")
+    o = AngularCoordinates(np.array([case["other"]]))
+    oref = ref_xyz(m, *case["other"])
+    for name, fn in (("many-to-one", lambda: c.distance(o)), ("one-to-many", lambda: o.distance(c)), ("elementwise", lambda: c.distance(c))):
+        ok, d = ck.call(fn, f"distance:{name}")
+        if not ok:
+            continue
+        vals = np.asarray(d.data, dtype=float)
+        ck.expect(vals.shape == (n,), f"batch:distance:{name}:shape", str(vals.shape))
+        if vals.shape != (n,):
+            continue
+        for i in range(n):
+            th = 0.0 if name == "elementwise" else float(ref_sep(m, refs[i], oref))
+            bound = BOUND_DIST * (1.0 + th) / max(math.cos(th / 2.0), 2e-8)
+            if not (math.isfinite(vals[i]) and abs(vals[i] - th) <= bound + (1e-300 if name != "elementwise" else 0.0)):
+                ck.fail(f"batch:distance:{name}:inaccurate", f"row {i} of {n}: got {vals[i]!r}, exact {th!r}")
+                break
+    return ck.results()
+
+
 def components():
     return [
+        Component("batches", batch_case(), run_batch, quick=3_000, thorough=100_000),
         Component("pairs", pair_case(), run_pair, quick=30_000, thorough=600_000),
         Component("distances", dist_case(), run_dist, quick=4_000, thorough=200_000),
         Component("mean", mean_case(), run_mean, quick=3_000, thorough=100_000),
